@@ -203,6 +203,15 @@ void run_probe(World& w, const Probe& p, const std::string& cid, Agg& a, const s
     if (r.ok) a.count("outcome.returned");
     else if (r.std_ex) a.count("outcome.std_exception");
     else a.violation(fam + "|" + p.name + "|non_std_exception", "[" + schema_name(w.schema) + "] " + p.name + " threw " + r.ex_type + ", which is not derived from std::exception", cid);
+    // whatever the call did, the state it left is reachable through the API: every observer must still be safe on it
+    // (a crash here is attributed to the probe by the pool; exceptions are answers)
+    if (!r.horizon)
+    {
+        seam::SqlArm arm;
+        Outcome r2 = w.guarded([&] { (void)observe(w, true, true); });
+        if (r2.horizon) a.violation(fam + "|" + p.name + "|observers_do_not_terminate_afterwards", "[" + schema_name(w.schema) + "] after " + p.name + ": an observer exceeded the VM-step horizon", cid);
+        a.count("post_probe_sweeps");
+    }
     if (r.horizon) a.violation(fam + "|" + p.name + "|does_not_terminate", "[" + schema_name(w.schema) + "] " + p.name + ": a single SQL statement exceeded the VM-step horizon", cid);
     if (sqlite3_get_autocommit(w.handle) == 0)
     {
